@@ -12,6 +12,7 @@ for d in names:
     prop = d[:3]
     patch = "%s/seeded/%s/patch.diff" % (ROOT, d)
     meta = json.load(open("%s/seeded/%s/meta.json" % (ROOT, d)))
+    prop = meta.get("check_property", prop)
     subprocess.run(["git", "-C", "/repo", "checkout", "--", "."], check=True)
     a = subprocess.run(["git", "-C", "/repo", "apply", patch], capture_output=True, text=True)
     if a.returncode != 0:
